@@ -89,6 +89,7 @@ impl Run {
 fn one_run(run: u64, steps: u64, stream: u64) -> Vec<Value> {
     let mut rng = rng(stream);
     let mut sim: Sim<Packet> = Sim::new(stream);
+    sim.trace_sample(stream, 5, 80_000);
     let n = 4usize;
     let mut decl = HashMap::new();
     for i in 0..n {
@@ -197,6 +198,7 @@ fn one_run_switch(run: u64, steps: u64, stream: u64) -> Vec<Value> {
     use crate::payload::Frame;
     let mut rng = rng(stream);
     let mut sim: Sim<Frame> = Sim::new(stream);
+    sim.trace_sample(stream, 5, 80_000);
     let n = 4usize;
     let mut cfg = base_config(Mode::Switch);
     cfg.peer_timeout = PEER_TIMEOUT;
@@ -295,6 +297,7 @@ fn one_run_switch(run: u64, steps: u64, stream: u64) -> Vec<Value> {
 fn one_run_steady(run: u64, stream: u64) -> Vec<Value> {
     let mut rng = rng(stream);
     let mut sim: Sim<Packet> = Sim::new(stream);
+    sim.trace_sample(stream, 5, 80_000);
     let n = 3usize;
     let (pt, st) = [(300u32, 30u32), (300, 10), (130, 1000), (300, 3600)][(run % 4) as usize];
     let mut decl: HashMap<(u16, u32), Vec<String>> = HashMap::new();
@@ -343,5 +346,6 @@ pub fn run(tier: &str, out_path: &str) -> Value {
         }
     }
     let events = t.finish();
-    json!({"runs": runs, "steps": runs * steps, "events": events})
+    let cloud = write_cloud_blocks(&format!("{}.cloud", out_path));
+    json!({"runs": runs, "steps": runs * steps, "events": events, "cloud_events": cloud})
 }
